@@ -54,7 +54,7 @@ def worker_init(tier, seed):
 
 
 def gen_cases(tier, seed):
-    nh = 900 if tier == "quick" else 40000
+    nh = 2500 if tier == "quick" else 40000
     reps = 1 if tier == "quick" else 6
     for r in range(reps):
         for j, name in enumerate(IMMUTABLE_NAMES):
@@ -63,7 +63,7 @@ def gen_cases(tier, seed):
     pure = [n for n in IMMUTABLE_NAMES if n not in IN_PLACE_DOCUMENTED]
     if tier == "quick":
         rngp = common.rng_for("C03pairs", seed)
-        pairs = [(pure[int(rngp.integers(len(pure)))], IMMUTABLE_NAMES[int(rngp.integers(len(IMMUTABLE_NAMES)))]) for _ in range(160)]
+        pairs = [(pure[int(rngp.integers(len(pure)))], IMMUTABLE_NAMES[int(rngp.integers(len(IMMUTABLE_NAMES)))]) for _ in range(400)]
         # a few pairs that share derived state by construction are always present
         pairs += [("compute_center_of_mass", "density"), ("compute_inertia_tensor", "density"), ("compute_distances(opt=False)", "unitcell_vectors"),
                   ("compute_distances(opt=False)", "save(xtc)"), ("compute_displacements(opt=False)", "save(trr)"), ("compute_angles(opt=False)", "unitcell_volumes"),
@@ -75,7 +75,7 @@ def gen_cases(tier, seed):
         if f == g:
             continue
         yield dict(i=500 + j, kind="pair", f=f, g=g, seed=common.case_seed(seed, "C03p", j), variant=j % 2)
-        if tier != "quick" or j >= 160:  # thorough: both cell variants for every pair; quick: for the pinned pairs
+        if tier != "quick" or j >= 400:  # thorough: both cell variants for every pair; quick: for the pinned pairs
             yield dict(i=50000 + j, kind="pair", f=f, g=g, seed=common.case_seed(seed, "C03p", j), variant=(j + 1) % 2)
     for i in range(nh):
         rng = common.rng_for("C03", seed, i)
